@@ -42,8 +42,10 @@ def gen_symbols(rnd):
         bind = rnd.choice([0, 1, 2, 10, 13, rnd.randint(0, 15)])
         vis = rnd.randint(0, 3)
         shndx = rnd.choice([0, 1, 1, 0xfff1, 0xfff2])
-        value = rnd.choice([0, 1, 0x1000, 0x7fffffff, 0xffffffff, rnd.randint(0, 1 << 32)])
-        size = rnd.choice([0, 0, 1, 8, 0xffffffff, rnd.randint(0, 4096)])
+        # 64-bit fields (masked to 32 bits when the file is ELF32): boundaries of both widths
+        wide = [1 << 32, (1 << 32) + 16, (1 << 63) - 1, 1 << 63, (1 << 64) - 1, rnd.getrandbits(64)]
+        value = rnd.choice([0, 1, 0x1000, 0x7fffffff, 0x80000000, 0xffffffff, rnd.randint(0, 1 << 32)] + wide)
+        size = rnd.choice([0, 0, 1, 8, 0x7fffffff, 0xffffffff, rnd.randint(0, 4096)] + wide)
         other_hi = rnd.choice([0, 0, 0, 0x20, 0x60, 0x80])
         syms.append(Sym(rnd.choice(names) if rnd.random() < 0.7 else b"s%d" % i, value, size, typ, bind, vis, shndx, other_hi))
     # local symbols must precede globals for a well-formed table
